@@ -86,7 +86,7 @@ for _p, _req in (("C12", ["retained_closed_form", "reopen_latest_content", "comm
         "trusted": ["tendermint/iavl, tm-db, tendermint/crypto/merkle"],
     }
 
-CHAIN_T1 = [{"family": "chain", "model": "chain", "quick_n": 5000, "thorough_n": 1500000, "corpus": "chain",
+CHAIN_T1 = [{"family": "chain", "model": "chain", "quick_n": 15000, "quick_shards": 3, "thorough_n": 1500000, "corpus": "chain",
              "reset_token": "init", "group_token": "begin"}]
 CHAIN_RULE = ("block histories on the real BaseApp (auth + pos + gov over IAVL/MemDB) driven through InitChain / BeginBlock / DeliverTx / "
               "CheckTx / Simulate / EndBlock / Commit with really signed transactions: state-aware generator (stake, begin-unstake, unjail, "
